@@ -92,7 +92,43 @@ META = {
     'models': ['M1'],
 }
 
-SIGNATURES = {}
+
+
+def _overlap_not_nested(trace):
+    """two actions a, b with start(a) < start(b) < end(a) < end(b) in the trace"""
+    pos = {}
+    for i, e in enumerate(trace):
+        if e[0] in ('start', 'end'):
+            pos[(e[0], e[1])] = i
+    tasks = sorted(set(t for (_k, t) in pos))
+    for a in tasks:
+        for b in tasks:
+            if a != b and all((k, t) in pos for k in ('start', 'end') for t in (a, b)):
+                if pos[('start', a)] < pos[('start', b)] < pos[('end', a)] < pos[('end', b)]:
+                    return True
+    return False
+
+
+def sig_json_thread_overlap(witness):
+    """SIGNATURE of the open finding json-thread-stdout-overlap: json reporter, thread runner, the only failed
+    monitors are C19_json (and C19_exit with exit 3 as its consequence), JsonReporter.complete_run raised
+    AttributeError, and the trace shows two actions overlapping without being nested (the history that leaves
+    sys.stdout pointing at a task Writer)"""
+    case = witness.get('case') or {}
+    if witness.get('reporter') != 'json' or case.get('runner') != 'thread':
+        return False
+    failed = set(witness.get('failed_monitors') or [])
+    if 'C19_json' not in failed or not failed <= {'C19_json', 'C19_exit'}:
+        return False
+    if 'C19_exit' in failed and witness.get('exit') != 3:
+        return False
+    probs = ' '.join((witness.get('detail') or {}).get('json_problems') or [])
+    if 'complete_run raised AttributeError' not in probs:
+        return False
+    return _overlap_not_nested(witness.get('trace') or [])
+
+
+SIGNATURES = {'json-thread-stdout-overlap': sig_json_thread_overlap}
 
 _LAST = {}          # output of the real reporter of the run in progress (same process as DoitMain.run)
 
